@@ -62,3 +62,27 @@ ssize_t pwrite64(int fd, const void *buf, size_t len, off_t off) {
     }
     return real_pwrite64(fd, buf, len, off);
 }
+
+/* the resize of the output (clone's last step) as a crash point: BITA_FI_TRUNC=kill ends the process before the truncate is carried out */
+static int (*real_ftruncate)(int, off_t);
+static int trunc_fault(int fd) {
+    const char *t = getenv("BITA_FI_TRUNC");
+    if (t && match(fd)) {
+        mark();
+        if (!strcmp(t, "kill")) { kill(getpid(), SIGKILL); pause(); }
+        errno = EIO;
+        return 1;
+    }
+    return 0;
+}
+int ftruncate(int fd, off_t len) {
+    if (!real_ftruncate) real_ftruncate = dlsym(RTLD_NEXT, "ftruncate");
+    if (trunc_fault(fd)) return -1;
+    return real_ftruncate(fd, len);
+}
+static int (*real_ftruncate64)(int, off_t);
+int ftruncate64(int fd, off_t len) {
+    if (!real_ftruncate64) real_ftruncate64 = dlsym(RTLD_NEXT, "ftruncate64");
+    if (trunc_fault(fd)) return -1;
+    return real_ftruncate64(fd, len);
+}
